@@ -189,25 +189,21 @@ theorem polib_unescape_eq (env : Env) (enc : Bytes) (s : Text) :
 
 /-! ## the flags setter, `translated` -/
 
-theorem flag_chars (c : Char) :
-    [' ', Char.ofNat 9, Char.ofNat 13, Char.ofNat 12, Char.ofNat 11].contains c = [9, 11, 12, 13, 32].contains c.toNat := by
-  have hc : c = Char.ofNat c.toNat := (Char.ofNat_toNat c).symm
-  by_cases h : c.toNat = 9 ∨ c.toNat = 11 ∨ c.toNat = 12 ∨ c.toNat = 13 ∨ c.toNat = 32
-  · rcases h with h | h | h | h | h <;> (rw [hc, h]; decide)
-  · have hn : [9, 11, 12, 13, 32].contains c.toNat = false := by
-      simp only [List.contains_cons, List.contains_nil, Bool.or_false, Bool.or_eq_false_iff, beq_eq_false_iff_ne]
-      omega
-    rw [hn]
-    simp only [List.contains_cons, List.contains_nil, Bool.or_false, Bool.or_eq_false_iff, beq_eq_false_iff_ne]
-    refine ⟨?_, ?_, ?_, ?_, ?_⟩ <;> (intro he; apply h; rw [he]; decide)
-
-/-- the `POEntry.flags` setter as regenerated = `setFlags`, given the strip set the table translator probed from the live setter -/
+/-- the `POEntry.flags` setter as regenerated = `setFlags`, given the strip set the table translator probed from the live setter
+    (the set in the source text may be spelled in any order) -/
 theorem set_flags_eq (hset : Generated.PolibFsm.flagStripSet = [9, 11, 12, 13, 32]) (flags : List Text) :
     Polib4us.set_flags flags = .ok (setFlags flags) := by
-  have hp : (fun c => [' ', Char.ofNat 9, Char.ofNat 13, Char.ofNat 12, Char.ofNat 11].contains c) = isFlagSpace := by
-    funext c
-    rw [flag_chars c, isFlagSpace, hset]
-  simp only [Polib4us.set_flags, setFlags, Py.stripChars, hp]
+  have hp : ∀ codes : List Nat, (∀ n, codes.contains n = Generated.PolibFsm.flagStripSet.contains n) →
+      (fun c : Char => codes.contains c.toNat) = isFlagSpace := by
+    intro codes h; funext c; rw [isFlagSpace, h]
+  simp only [Polib4us.set_flags, setFlags, Py.stripCodes]
+  rw [hp _ (by
+    intro n
+    rw [hset]
+    simp only [List.contains_cons, List.contains_nil, Bool.or_false]
+    apply Bool.eq_iff_iff.mpr
+    simp only [Bool.or_eq_true, beq_iff_eq]
+    omega)]
 
 /-- `POEntry.translated()` as regenerated = `translated` -/
 theorem translated_eq (e : Entry) : Polib4us.translated e = .ok (Po.translated e) := by
@@ -367,7 +363,8 @@ theorem codecs_open_eq (env : Env) (hascii : AsciiIsAscii env) (file : Bytes) (m
        | .error .decode => .error .unicodeDecode
        | .error _ => .error .other) := by
   have hm : (!(mode == ['r', 'U'] || mode == ['r', 't'])) = false := by rcases hmode with h | h <;> (subst h; decide)
-  simp only [Polib4us.Codecs_open, hm, Bool.false_eq_true, if_false, decodeFile]
+  have hm' : (!(mode == ['r', 't'] || mode == ['r', 'U'])) = false := by rcases hmode with h | h <;> (subst h; decide)
+  simp only [Polib4us.Codecs_open, hm, hm', Bool.false_eq_true, if_false, decodeFile]
   cases hc : env.asciiCompatible enc with
   | true =>
     simp only [Bool.not_true, Bool.false_eq_true, if_false, if_true, Py.encodingsDecode]
